@@ -1,4 +1,130 @@
 import Model.Base.Proto
+import Model.Proc.Tok
+import Model.Proc.ParseFilter
+import Model.Proc.ParseProj
+import Model.Spec.Expr
 
-/-- stub: replaced when the property's driver is built -/
-def main : IO Unit := pure ()
+namespace Driver.C07
+open Proto Proc.Tok
+
+/- case <id> kind=expr text=<hex> reok=<hexlist> rebad=<hexlist> sp=<hex runes>
+     obs  <id> pf=… nf=… pp=… np=…           (model)
+     spec <id> n=… f=… p=…                    (judgement of the implementation's sobs line)
+   case <id> kind=quote s=<hex> other=<hex> pr=<hex runes>
+     obs  <id> gq=<hex> uq=ok:<hex>|err
+     spec <id> val=ok:10 full=ok:10 key=… pk=… fx=ok:10
+   case <id> kind=bare w=<hex> sp=…
+     spec <id> val=… key=… pk=…
+   case <id> kind=unq text=<hex>
+     obs  <id> uq=… -/
+
+def hexNat (s : String) : Option Nat :=
+  s.toList.foldlM (fun acc c => (Bytes.hexVal c).map (acc * 16 + ·)) 0
+
+def runeList (s : String) : List Nat :=
+  if s == "-" || s == "" then [] else (s.splitOn ",").filterMap hexNat
+
+def mkCtx (l : Line) (text : Bytes) : Ctx :=
+  let reok := (l.hexList? "reok").getD []
+  let sp := runeList (l.getD "sp" "-")
+  { n := text.length, compileOK := fun e => reok.contains e, isSpaceHi := fun r => sp.contains r }
+
+def showErr (e : Err) : String := s!"err:{e.off}:{e.msg.name}"
+
+open Proc.ParseFilter in
+partial def dumpFilter : Filter → String
+  | .nil => "nil"
+  | .op o es =>
+    let h := match o with | .and => "A(" | .or => "O(" | .not => "N("
+    h ++ ",".intercalate (es.map dumpFilter) ++ ")"
+  | .lit k v off => s!"L{k.toHex}:{v.toHex}@{off}"
+  | .re k v off => s!"R{k.toHex}:{v.toHex}@{off}"
+
+def dumpFields (fs : List Proc.ParseProj.Field) : String :=
+  if fs.isEmpty then "-" else
+  ";".intercalate (fs.map fun f =>
+    let fx := if f.fixed.isEmpty then "-" else "+".intercalate (f.fixed.map Bytes.toHex)
+    s!"K{f.key.toHex}/O{f.order.toHex}/F{fx}/{f.keyOff}/{f.orderOff}")
+
+/-- one field of the implementation's sobs line judged against the property:
+echo it when acceptable, otherwise print what is demanded -/
+def judge (n : Nat) (must : Option String) (v : String) : String :=
+  if v == "ok" then
+    match must with
+    | some cls => s!"REJECT({cls})"
+    | none => v
+  else
+    match (v.splitOn ":") with
+    | ["err", off] =>
+      match off.toInt? with
+      | some o => if 0 ≤ o ∧ o ≤ (n : Int) then v else s!"err:0..{n}"
+      | none => s!"err:0..{n}"
+    | _ => s!"err:0..{n}"
+
+def handleCase (l : Line) : IO Unit := do
+  let kind := l.getD "kind"
+  if kind == "expr" then
+    let text := (l.bytes? "text").getD []
+    let cx := mkCtx l text
+    let pf := match Proc.ParseFilter.parseFilter cx text with
+      | .ok f => "ok:" ++ dumpFilter f
+      | .error e => showErr e
+    let nf := match Proc.ParseFilter.newFilter cx text with
+      | .ok _ => "ok"
+      | .error e => showErr e
+    let pp := match Proc.ParseProj.parseProjection cx text with
+      | .ok fs => "ok:" ++ dumpFields fs
+      | .error e => showErr e
+    let np := match Proc.ParseProj.parse cx text with
+      | .ok _ => "ok"
+      | .error e => showErr e
+    IO.println s!"obs {l.id} pf={pf} nf={nf} pp={pp} np={np}"
+  else if kind == "quote" then
+    let s := (l.bytes? "s").getD []
+    let pr := runeList (l.getD "pr" "-")
+    let q := goQuote (fun r => pr.contains r) s
+    let uq := match unquote q with
+      | some u => "ok:" ++ u.toHex
+      | none => "err"
+    IO.println s!"obs {l.id} gq={q.toHex} uq={uq}"
+  else if kind == "unq" then
+    let text := (l.bytes? "text").getD []
+    let uq := match unquote text with
+      | some u => "ok:" ++ u.toHex
+      | none => "err"
+    IO.println s!"obs {l.id} uq={uq}"
+
+def handleSobs (c : Line) (l : Line) : IO Unit := do
+  let kind := c.getD "kind"
+  if kind == "expr" then
+    let text := (c.bytes? "text").getD []
+    let n := text.length
+    let f := judge n (Spec.Expr.mustRejectFilter text) (l.getD "f")
+    let p := judge n (Spec.Expr.mustRejectProj text) (l.getD "p")
+    IO.println s!"spec {l.id} n={n} f={f} p={p}"
+  else if kind == "quote" then
+    let s := (c.bytes? "s").getD []
+    let (key, pk) := if Spec.Expr.usableKey s then ("ok:100", s!"ok:{s.toHex}:76") else ("skip", "skip")
+    IO.println s!"spec {l.id} val=ok:10 full=ok:10 key={key} pk={pk} fx=ok:10"
+  else if kind == "bare" then
+    let w := (c.bytes? "w").getD []
+    let hasSpace := w.any Spec.Expr.asciiSpace || (c.getD "sp" "-") != "-"
+    if Spec.Expr.bareSafe hasSpace w then
+      let (key, pk) := if Spec.Expr.usableKey w then ("ok:10", s!"ok:{w.toHex}:76") else ("skip", "skip")
+      IO.println s!"spec {l.id} val=ok:10 key={key} pk={pk}"
+    else
+      IO.println s!"spec {l.id} val={l.getD "val"} key={l.getD "key"} pk={l.getD "pk"}"
+
+end Driver.C07
+
+def main : IO Unit := do
+  let stdin ← IO.getStdin
+  let cur ← IO.mkRef (Proto.parseLine "")
+  Proto.forEachLine stdin fun s => do
+    let l := Proto.parseLine s
+    if l.kind == "case" then
+      cur.set l
+      Driver.C07.handleCase l
+    else if l.kind == "sobs" then
+      let c ← cur.get
+      if c.id == l.id then Driver.C07.handleSobs c l
